@@ -85,6 +85,8 @@ class BaseIntervalScorer(BaseEstimator):
         -----
         Updates the fitted model and sets attributes ending in "_".
         """
+        # A fit that raises must not leave the state of an earlier fit in use.
+        self._is_fitted = False
         X = check_series(X, allow_index_names=True)
         self._X = X
 
